@@ -30,6 +30,8 @@ the code for all inputs:
       with the arguments substituted (when every argument is simple, or every parameter is used once and E has no inner call)
   N12b a local function that is only called as a statement with plain names as arguments, and neither returns a value
       nor returns early, is its body at each call site (parameters replaced by the argument names)
+  N14b `t = h(a, b)` with h a small non-recursive module-level function whose returns are all in tail position and whose
+      arguments are plain names: h's body with `return E` replaced by `t = E` (locals renamed apart)
   N6  `t = E` immediately followed by `return t`, where every binding of the local t is such a pair and t is used
       nowhere else  -> `return E`
 
@@ -599,8 +601,135 @@ def _inline_trivial_helpers(tree):
     ast.fix_missing_locations(tree)
 
 
+def _inline_tail_helpers(tree):
+    """N14b: `t = h(a, b)` where h is an undecorated, non-recursive module-level function of the same module called with
+    plain names, and every `return E` of h is in tail position (last statement of the body, of both arms of an if, of a
+    try body and its handlers): the statement is h's body with parameters replaced by the argument names, h's other locals
+    renamed apart, and each `return E` replaced by `t = E`.  A parameter that h re-binds must be passed the very name
+    the result is assigned to (x = h(u, x)), otherwise the caller's variable would change."""
+    import copy as _copy
+
+    defs = {}
+    for n in tree.body:
+        if isinstance(n, ast.FunctionDef) and not n.decorator_list:
+            a = n.args
+            if a.posonlyargs or a.kwonlyargs or a.vararg or a.kwarg or a.defaults:
+                continue
+            body = [s_ for s_ in n.body if not (isinstance(s_, ast.Expr) and isinstance(s_.value, ast.Constant))]
+            if not body or len(body) > 8:
+                continue
+            if any(isinstance(x, (ast.Yield, ast.YieldFrom, ast.Await, ast.Global, ast.Nonlocal, ast.FunctionDef, ast.Lambda, ast.While, ast.For, ast.With)) for s_ in body for x in ast.walk(s_)):
+                continue
+            if any(isinstance(x, ast.Call) and isinstance(x.func, ast.Name) and x.func.id == n.name for s_ in body for x in ast.walk(s_)):
+                continue
+            defs[n.name] = (n, [x.arg for x in a.args], body)
+    counts = {}
+    for n in ast.walk(tree):
+        if isinstance(n, ast.FunctionDef):
+            counts[n.name] = counts.get(n.name, 0) + 1
+    defs = {k: v for k, v in defs.items() if counts.get(k) == 1}
+    if not defs:
+        return
+
+    def tailify(stmts, target):
+        """stmts with every tail `return E` turned into `target = E`; None when a return is not in tail position"""
+        if not stmts:
+            return None
+        head, last = stmts[:-1], stmts[-1]
+        if any(isinstance(x, ast.Return) for s_ in head for x in ast.walk(s_)):
+            return None
+        if isinstance(last, ast.Return):
+            if last.value is None:
+                return None
+            return head + [ast.copy_location(ast.Assign(targets=[ast.Name(id=target, ctx=ast.Store())], value=last.value), last)]
+        if isinstance(last, ast.If) and last.orelse:
+            b1, b2 = tailify(last.body, target), tailify(last.orelse, target)
+            if b1 is None or b2 is None:
+                return None
+            return head + [ast.copy_location(ast.If(test=last.test, body=b1, orelse=b2), last)]
+        if isinstance(last, ast.Try) and not last.finalbody and not last.orelse:
+            tb = tailify(last.body, target)
+            hs = []
+            for h in last.handlers:
+                hb = tailify(h.body, target)
+                if hb is None:
+                    return None
+                hs.append(ast.copy_location(ast.ExceptHandler(type=h.type, name=h.name, body=hb), h))
+            if tb is None:
+                return None
+            return head + [ast.copy_location(ast.Try(body=tb, handlers=hs, orelse=[], finalbody=[]), last)]
+        return None
+
+    def expand(st, used_names):
+        call = st.value
+        node, params, body = defs[call.func.id]
+        if call.keywords or len(call.args) != len(params) or not all(isinstance(x, ast.Name) for x in call.args):
+            return None
+        target = st.targets[0].id
+        bind = {p_: x.id for p_, x in zip(params, call.args)}
+        stored = {x.id for s_ in body for x in ast.walk(s_) if isinstance(x, ast.Name) and isinstance(x.ctx, ast.Store)}
+        for p_ in params:
+            if p_ in stored and bind[p_] != target:
+                return None
+        # single-return-expression helpers are N14's business
+        if len(body) == 1 and isinstance(body[0], ast.Return):
+            return None
+        for loc in stored - set(params):
+            new_name = loc
+            if loc in used_names or loc in bind.values():
+                new_name = f"_{call.func.id.strip('_')}_{loc}"
+            bind[loc] = new_name
+        new_body = tailify(_copy.deepcopy(body), "__RESULT__")
+        if new_body is None:
+            return None
+        bind["__RESULT__"] = target
+
+        class S(ast.NodeTransformer):
+            def visit_Name(self, n):
+                if n.id in bind:
+                    return ast.copy_location(ast.Name(id=bind[n.id], ctx=n.ctx), n)
+                return n
+
+        return [ast.copy_location(S().visit(b_), st) for b_ in new_body]
+
+    def rewrite(stmts, used_names):
+        out = []
+        for st in stmts:
+            if isinstance(st, ast.Assign) and len(st.targets) == 1 and isinstance(st.targets[0], ast.Name) and isinstance(st.value, ast.Call) and isinstance(st.value.func, ast.Name) and st.value.func.id in defs:
+                ex = expand(st, used_names)
+                if ex is not None:
+                    out.extend(ex)
+                    continue
+            for fld in ("body", "orelse", "finalbody"):
+                sub = getattr(st, fld, None)
+                if isinstance(sub, list) and sub and isinstance(sub[0], ast.stmt) and not isinstance(st, (ast.FunctionDef, ast.ClassDef)):
+                    setattr(st, fld, rewrite(sub, used_names))
+            for h in getattr(st, "handlers", []) or []:
+                h.body = rewrite(h.body, used_names)
+            out.append(st)
+        return out
+
+    def visit_fn(fn):
+        used = {x.id for x in ast.walk(fn) if isinstance(x, ast.Name)} | {x.arg for x in ast.walk(fn) if isinstance(x, ast.arg)}
+        fn.body = rewrite(fn.body, used)
+        for sub in fn.body:
+            for x in ast.walk(sub):
+                if isinstance(x, ast.FunctionDef):
+                    visit_fn(x)
+
+    for n in tree.body:
+        if isinstance(n, ast.FunctionDef):
+            visit_fn(n)
+        elif isinstance(n, ast.ClassDef):
+            for m in n.body:
+                if isinstance(m, ast.FunctionDef):
+                    visit_fn(m)
+    ast.fix_missing_locations(tree)
+
+
 def normalise(tree):
     _inline_trivial_helpers(tree)
+    _inline_tail_helpers(tree)
 
     def visit(body):
         for st in body:
